@@ -1,4 +1,14 @@
 import AtreeProofs.HealthSpec
-/- Helper lemmas for the health-check model (C20). -/
-namespace Atree
-end Atree
+import AtreeProofs.Health.Scan
+import AtreeProofs.Health.Climb
+import AtreeProofs.Health.Check
+import AtreeProofs.Health.ChildRefs
+import AtreeProofs.Health.Corrupt
+/-
+  Helper lemmas for the health-check model (C20).  The development lives in `AtreeProofs/Health/`:
+  * `Scan`      – `edges`/`targets`, exact behaviour of `scanRefs`, `scan`, `allResolve`;
+  * `Climb`     – parent chains (`Chain`), exact behaviour of `climb`, `climbAll`;
+  * `Check`     – `Reach` lemmas, `check_ok_iff`, `check_sound`, `check_complete`;
+  * `ChildRefs` – the breadth-first `childRefs` query on a healthy heap;
+  * `Corrupt`   – erased / added slabs.
+-/
